@@ -30,6 +30,10 @@ type CnvCase struct {
 	Schema string `json:"schema"`
 	Rule   string `json:"corrupted_rule"`
 	Pos    int    `json:"value_offset"`
+	// Extra: the text of an added type that nothing refers to (it must not change the verdict
+	// about the root; it is the uncorrupted schema, so it has values, rules and anonymous `or`
+	// types at the very same offsets)
+	Extra string `json:"unreferenced_added_type,omitempty"`
 }
 
 func init() {
@@ -67,7 +71,11 @@ func forward(t run.TB, c FwdCase) bool {
 }
 
 func converse(t run.TB, c CnvCase) {
-	s, _ := lib.Build(lib.Spec{Schema: c.Schema})
+	sp := lib.Spec{Schema: c.Schema}
+	if c.Extra != "" {
+		sp.Types = []lib.Named{{Name: "@unrelated", Text: c.Extra}}
+	}
+	s, _ := lib.Build(sp) // AddType loads the root first: a defect of the root may already surface there
 	cr := lib.Check(s)
 	if cr.Panic != "" {
 		run.Fail(t, chkCnv, c, "Check panicked: %s", cr.Panic)
@@ -134,6 +142,10 @@ func TestCheckVsExample(t *testing.T) {
 			}
 			bschema := string(gen.PrintSchema(bad, st))
 			cc := CnvCase{Schema: bschema, Rule: cor.Rule, Pos: cor.Node.Begin}
+			if rapid.Bool().Draw(t, "extra") {
+				cc.Extra = schema
+				run.Label("cnv:with-unreferenced-added-type")
+			}
 			converse(t, cc)
 			run.Eval(chkCnv, true, bschema)
 			run.Label("cnv:" + cor.Rule)
